@@ -442,6 +442,18 @@ func main() {
 	// Txn.Get: pending write first, then read tracking, then the snapshot
 	facts = append(facts, fact{"ord_get_steps", "op", ascending("txn.go", "Txn", "Get",
 		"len(key) == 0", "txn.discarded", "txn.pendingWrites[string(key)]", "txn.addReadKey(key)", "txn.db.get(seek)"), "txn.go:Txn.Get [order of steps]"})
+	// banned namespaces (C28): the length guard and the 8-byte namespace term of DB.isBanned, the
+	// place of the check in Txn.Get and in Iterator.parseItem (on the USER key since the fix of F30,
+	// right after the version window test and before any mode-specific logic)
+	addOp("op_isbanned_len", "db.go", "DB", "isBanned", "len(key)", "db.opt.NamespaceOffset + 8")
+	addOp("op_isbanned_off", "db.go", "DB", "isBanned", "db.opt.NamespaceOffset", "0")
+	facts = append(facts, fact{"ord_get_banned", "op", ascending("txn.go", "Txn", "Get",
+		"len(key) == 0", "txn.discarded", "txn.db.isBanned(key)", "txn.pendingWrites[string(key)]"), "txn.go:Txn.Get [isBanned between the discarded check and the pending lookup]"})
+	facts = append(facts, fact{"ord_parseitem_banned", "op", ascending("iterator.go", "Iterator", "parseItem",
+		"!it.opt.InternalAccess && isInternalKey", "version > it.readTs", "it.txn.db.isBanned(y.ParseKey(key))", "it.opt.AllVersions"), "iterator.go:Iterator.parseItem [internal, window, isBanned(ParseKey(key)), modes]"})
+	facts = append(facts, fact{"has_ban_add", "op", has("db.go", "DB", "BanNamespace", "db.bannedNamespaces.add(ns)"), "db.go:DB.BanNamespace [adds to the in-memory set]"})
+	facts = append(facts, fact{"ord_ban_steps", "op", ascending("db.go", "DB", "BanNamespace",
+		"db.opt.NamespaceOffset < 0", "y.KeyWithTs(append(bannedNsKey, y.U64ToBytes(ns)...), 1)", "db.sendToWriteCh(entry)", "req.Wait()", "db.bannedNamespaces.add(ns)"), "db.go:DB.BanNamespace [mode check, marker key at version 1, write, wait, in-memory set]"})
 	// Txn.Commit / commitPrecheck
 	facts = append(facts, fact{"ord_commit_steps", "op", ascending("txn.go", "Txn", "Commit",
 		"len(txn.pendingWrites) == 0", "txn.commitPrecheck()", "txn.commitAndSend()"), "txn.go:Txn.Commit [order of steps]"})
